@@ -263,9 +263,9 @@ CLAUSES = [
     Clause('short-histories-exhaustive', check_case, kind='exhaustive', enumerate=_enum,
            space='all operation sequences of length <=3 (quick) / <=4 (thorough) over a 14-operation alphabet on a fixed 4-node graph with one attacker'),
     Clause('hand-built-graph-histories', check_case, kind='random', strategy=lambda: ag_cases(15),
-           budget={'quick': 4000, 'thorough': 40000}),
+           budget={'quick': 4000, 'thorough': 120000}),
     Clause('generated-graph-histories', check_case, kind='random', strategy=lambda: gen_cases(15),
-           budget={'quick': 3000, 'thorough': 30000}),
+           budget={'quick': 3000, 'thorough': 90000}),
     Clause('long-histories', check_case, kind='random', strategy=lambda: gen_cases(40),
-           budget={'quick': 0, 'thorough': 4000}),
+           budget={'quick': 0, 'thorough': 12000}),
 ]
